@@ -121,6 +121,7 @@ static int	gcvNLocs  = 0;		/* Number of locals */
 static int	gcvNStmts = 0;		/* Number of statements */
 static int	gcvNBInts = 0;		/* Counter for global big ints */
 static int	gcvNRRFmt = 0;		/* Counter for global RRFmts */
+static Bool	gcvPrepareDeclared = false; /* domainPrepare! declared in this unit */
 static int	gcvisInitConst = 0;	/* True if prog is constant 0 */
 static int	gcvisStmtFCall = 0;	/* True if stmt is a function call */
 static GcNesting gcvCallNesting;	/* Depth of nesting of foam-level calls*/
@@ -547,6 +548,7 @@ gccUnit(Foam foam, String name)
 	gcvLvl	  = 0;
 	gcvNBInts = 0;
 	gcvNRRFmt = 0;
+	gcvPrepareDeclared = false;
 	gcvGlo	  = foamUnitGlobals(foam);
 	gcvConst  = foamUnitConstants(foam);
 	gcvFluids  = foamUnitFluids(foam);
@@ -2044,12 +2046,11 @@ gc0ExportInit(String name, Foam gdecl, int nglo)
 	else {
 		CCode	n = gc0MultVarId("G", nglo, "domainPrepare!");
 		
-		static Bool initPrepare = false;
-		if (!initPrepare) {
+		if (!gcvPrepareDeclared) {
 			CCode	type = ccoType(ccoExtern(),
 					       ccoTypeIdOf(gcFiClos));
 			gc0AddLine(gcvGloCC, ccoDecl(type, ccoCopy(n)));
-			initPrepare = true;
+			gcvPrepareDeclared = true;
 		}
 
 		ccCall = ccoFCall(gc0MultVarId(gcFiInitModulePrefix,
